@@ -752,3 +752,172 @@ func nameOrQ(fi *FuncInfo) string {
 	}
 	return fi.Name()
 }
+
+// ruleClosedMarkerOnAllPaths: the insertion sites of the tables that hold scopes
+// re-check `table != nil` under the table's lock; that only refuses late
+// arrivals if Close assigns nil to the table on *every* path past its gate (an
+// early return of the draining helper for an empty table leaves an empty,
+// non-nil map behind: a CreateScope that overlaps the Close of an idle owner
+// succeeds and returns a live scope of a disposed owner).
+func ruleClosedMarkerOnAllPaths(w *World, r *Report, rule string) {
+	for _, c := range closers(w) {
+		table := map[string]string{"scope": "children", "provider": "scopes"}[c.owner]
+		// is the table nil-guarded at an insertion site?
+		tf := w.Field(w.Godi, c.owner, table)
+		guarded := false
+		for _, fi := range w.FuncsOf(w.Godi) {
+			info := fi.Pkg.TypesInfo
+			ast.Inspect(fi.Decl.Body, func(n ast.Node) bool {
+				if be, ok := n.(*ast.BinaryExpr); ok && (be.Op == token.EQL || be.Op == token.NEQ) {
+					if (fieldOf(info, be.X) == tf && isNilIdent(info, be.Y)) || (fieldOf(info, be.Y) == tf && isNilIdent(info, be.X)) {
+						if fi != c.fi {
+							guarded = true
+						}
+					}
+				}
+				return true
+			})
+		}
+		con := c.fi.Name() + "#closed-marker:" + table
+		if !guarded {
+			r.OK(rule, con, c.fi.Decl.Pos(), false, "no insertion site relies on %s.%s being nil after Close", c.owner, table)
+			continue
+		}
+		where, ok := c.mustAtWonExits("nil:" + c.owner + "." + table)
+		r.Check(ok, rule, con, c.fi.Decl.Pos(), true,
+			"Close assigns nil to "+c.owner+"."+table+" on every path past the gate: the insertion sites' `!= nil` re-check sees every closed owner",
+			"the exit at "+where+" is reached past the gate without "+c.owner+"."+table+" having been set to nil, but the insertion sites take `"+table+" != nil` as \"the owner is open\": a scope created while an owner without scopes closes is registered in it and handed out alive")
+	}
+}
+
+// ruleAliasIsBase: a descriptor registered for an interface alias (the As
+// option) is the base registration under another type. As applies to instance
+// registrations too, so besides what every derived descriptor copies (R03.6) the
+// alias must carry the base's IsInstance and Instance - otherwise an aliased
+// instance is sent through the constructor path and the invoker hands back the
+// analysis cache's value for that type (the first instance of the type ever seen).
+func ruleAliasIsBase(w *World, r *Report, rule string) {
+	add := w.MustFn(w.Godi, "(*collection).addService")
+	n := 0
+	for _, fi := range w.Within(add, 2) {
+		info := fi.Pkg.TypesInfo
+		for _, il := range iterLoopsIn(info, fi.Decl.Body) {
+			fv := fieldOf(info, il.Coll)
+			if fv == nil || fv.Name() != "As" {
+				continue
+			}
+			// the descriptor variables built in the loop body
+			given := map[types.Object]map[string]ast.Expr{}
+			note := func(o types.Object, fields map[string]ast.Expr) {
+				if o == nil {
+					return
+				}
+				if given[o] == nil {
+					given[o] = map[string]ast.Expr{}
+				}
+				for k, v := range fields {
+					given[o][k] = v
+				}
+			}
+			var litFields func(e ast.Expr, depth int) map[string]ast.Expr
+			litFields = func(e ast.Expr, depth int) map[string]ast.Expr {
+				if cl := litOf(e); cl != nil {
+					if tv, ok := info.Types[cl]; ok && isNamedType(tv.Type, modPath, "Descriptor") {
+						return compositeFields(cl)
+					}
+				}
+				if c, ok := unparen(e).(*ast.CallExpr); ok && depth > 0 {
+					if t := w.Decls[callee(info, c)]; t != nil && t.Pkg == fi.Pkg {
+						out := map[string]ast.Expr{}
+						tinfo := t.Pkg.TypesInfo
+						var lit *ast.CompositeLit
+						ast.Inspect(t.Decl.Body, func(x ast.Node) bool {
+							if cl, ok := x.(*ast.CompositeLit); ok {
+								if tv, ok := tinfo.Types[cl]; ok && isNamedType(tv.Type, modPath, "Descriptor") {
+									lit = cl
+								}
+							}
+							return true
+						})
+						if lit == nil {
+							return nil
+						}
+						for k, v := range compositeFields(lit) {
+							out[k] = v
+						}
+						// assignments to the result inside the helper
+						ast.Inspect(t.Decl.Body, func(x ast.Node) bool {
+							if as, ok := x.(*ast.AssignStmt); ok && len(as.Lhs) == len(as.Rhs) {
+								for i, l := range as.Lhs {
+									if f := plainFieldOf(tinfo, l); f != nil {
+										if tv, ok := tinfo.Types[selBase(l)]; ok && isNamedType(tv.Type, modPath, "Descriptor") {
+											out[f.Name()] = as.Rhs[i]
+										}
+									}
+								}
+							}
+							return true
+						})
+						return out
+					}
+				}
+				return nil
+			}
+			ast.Inspect(il.Body, func(x ast.Node) bool {
+				as, ok := x.(*ast.AssignStmt)
+				if !ok || len(as.Lhs) != len(as.Rhs) {
+					return true
+				}
+				for i, l := range as.Lhs {
+					if o := objOf(info, l); o != nil && isNamedType(o.Type(), modPath, "Descriptor") {
+						if f := litFields(as.Rhs[i], 1); f != nil {
+							note(o, f)
+						}
+					}
+					if f := plainFieldOf(info, l); f != nil {
+						if o := objOf(info, selBase(l)); o != nil && given[o] != nil {
+							note(o, map[string]ast.Expr{f.Name(): as.Rhs[i]})
+						}
+					}
+				}
+				return true
+			})
+			for o, fields := range given {
+				n++
+				var missing []string
+				for _, name := range []string{"IsInstance", "Instance"} {
+					v, ok := fields[name]
+					if !ok {
+						missing = append(missing, name)
+						continue
+					}
+					if sel, isSel := unparen(v).(*ast.SelectorExpr); !isSel || sel.Sel.Name != name {
+						missing = append(missing, name)
+					}
+				}
+				r.Check(len(missing) == 0, rule, fmt.Sprintf("%s#alias-descriptor:%s", fi.Name(), o.Name()), il.Stmt.Pos(), false,
+					"the alias descriptor takes IsInstance and Instance from the descriptor it aliases",
+					fmt.Sprintf("the descriptor built for an interface alias does not take %v from the descriptor it aliases: an instance registered with As is treated as a constructor, and the invoker answers with the analysis cache's value for that type - every aliased instance of one concrete type resolves to the first one", missing))
+			}
+		}
+	}
+	if n == 0 {
+		r.Fail(rule, add.Name()+"#alias-descriptor", add.Decl.Pos(), "no descriptor is built in a loop over the As option")
+	}
+}
+
+// reexport runs a rule set of another property on a scratch report and files the
+// obligations of the selected rule ids under a rule of this property.
+func reexport(w *World, r *Report, rule string, run func(sub *Report), ids ...string) {
+	sub := NewReport(r.Prop, r.Tier, w)
+	sub.lenient = true
+	run(sub)
+	for _, o := range sub.Obs {
+		for _, id := range ids {
+			if o.Rule == id {
+				o.Rule = rule
+				r.Obs = append(r.Obs, o)
+			}
+		}
+	}
+}
